@@ -15,7 +15,11 @@ import (
 // ---- reference model: lexical scoping of child blocks ------------------------------
 
 type c13model struct {
-	seen map[int]bool // once handles rendered in this context
+	seen  map[int]bool // once handles rendered in this context
+	nOnce int
+	// work bounds the evaluation: nested loops and repeated slots multiply, and a spec whose
+	// document would have more than a few thousand tokens is not rendered at all.
+	work int
 	// unconsumed / onceBlock are probes only: a hand-written callee that never looks at its
 	// children, or a once handle, was given a block (the shapes behind defects F2b/F2c).
 	unconsumed bool
@@ -24,7 +28,12 @@ type c13model struct {
 
 type thunk func() []string
 
+type tooBig struct{}
+
 func (m *c13model) eval(n *Node, ch thunk) []string {
+	if m.work--; m.work < 0 {
+		panic(tooBig{})
+	}
 	kids := func(i int) *Node {
 		if i < len(n.Kids) {
 			return n.Kids[i]
@@ -135,6 +144,10 @@ func (m *c13model) eval(n *Node, ch thunk) []string {
 	case "hwforward": // drops its own block, passes kid 1 to kid 0 as the block
 		blk := kids(1)
 		return m.eval(kids(0), func() []string { return m.eval(blk, nil) })
+	case "hwflush": // hand-written: templ.Flush given kid 0 as its block, on a writer without Flush
+		return m.eval(kids(0), nil)
+	case "shape":
+		return m.evalShape(shapeASTs[n.N%len(shapeASTs)], n, ch, m.nOnce)
 	}
 	panic("c13 model: kind " + n.K)
 }
@@ -197,7 +210,7 @@ func (g *c13gen) callee(budget *int, depth int) *Node {
 	t := g.t
 	// templ.Join is never *given* a block: what its elements should then receive is not
 	// defined by the statement (it passes its context on), so that shape is not judged.
-	kinds := []string{"slot", "slot", "slottwice", "noslot", "passdown", "passdowntwice", "slotaround", "hwchildren", "flushcallee", "hwwrapslot", "oncecallee", "hwignore", "raw", "join", "hwforward", "hwnonce", "hwclear", "hwchildrenbuf"}
+	kinds := []string{"slot", "slot", "slottwice", "noslot", "passdown", "passdowntwice", "slotaround", "hwchildren", "flushcallee", "hwwrapslot", "oncecallee", "hwignore", "raw", "join", "hwforward", "hwnonce", "hwclear", "hwchildrenbuf", "shape", "shape", "shape"}
 	k := kinds[t.Choose(len(kinds), "calleekind")]
 	switch k {
 	case "slot", "slottwice", "noslot", "hwignore", "hwchildrenbuf":
@@ -226,8 +239,22 @@ func (g *c13gen) callee(budget *int, depth int) *Node {
 		return &Node{K: k, Kids: []*Node{g.callee(budget, depth+1), g.node(budget, depth+1)}}
 	case "hwnonce", "hwclear":
 		return &Node{K: k, Kids: []*Node{g.callee(budget, depth+1)}}
+	case "shape":
+		return g.shape(budget, depth)
 	}
 	panic(k)
+}
+
+// shape draws an instance of the seeded template family. Its parameters are callees: the
+// template calls them with and without blocks.
+func (g *c13gen) shape(budget *int, depth int) *Node {
+	return genShape(g.t, g.id("S"), func() *Node {
+		if depth >= 5 || *budget <= 0 {
+			return &Node{K: "slot", S: g.id("c")}
+		}
+		*budget--
+		return g.callee(budget, depth+1)
+	})
 }
 
 func (g *c13gen) node(budget *int, depth int) *Node {
@@ -246,7 +273,7 @@ func (g *c13gen) node(budget *int, depth int) *Node {
 		}
 	}
 	sub := func() *Node { return g.node(budget, depth+1) }
-	kinds := []string{"seq", "seq", "el", "ifelse", "callnoblock", "callblock", "callblock", "callblockthen", "callblockthen", "flush", "join", "gojoin", "passdowncall", "hwwrap", "oncebody", "oncebody"}
+	kinds := []string{"seq", "seq", "el", "ifelse", "callnoblock", "callblock", "callblock", "callblockthen", "callblockthen", "flush", "join", "gojoin", "passdowncall", "hwwrap", "oncebody", "oncebody", "shape", "shape", "hwflush"}
 	switch k := kinds[t.Choose(len(kinds), "innerkind")]; k {
 	case "seq", "join", "gojoin":
 		n := &Node{K: k}
@@ -272,6 +299,10 @@ func (g *c13gen) node(budget *int, depth int) *Node {
 		return &Node{K: k, Kids: []*Node{sub()}}
 	case "hwwrap":
 		return &Node{K: k, N: 16, Kids: []*Node{sub()}}
+	case "hwflush":
+		return &Node{K: k, Kids: []*Node{sub()}}
+	case "shape":
+		return g.shape(budget, depth)
 	}
 	panic("gen")
 }
@@ -284,6 +315,10 @@ func closureOwner(root *Node, tok string) string {
 	walk = func(n *Node, owner string) bool {
 		if (n.K == "block" && "blk:"+n.S == tok) || ("w:"+n.S == tok && n.S != "") || ("div:"+n.S == tok && n.K == "el") {
 			found = owner
+			return true
+		}
+		if n.K == "shape" && (strings.HasPrefix(tok, "blk:"+n.S+"-m") || strings.HasPrefix(tok, "div:"+n.S+"-e")) {
+			found = "body-of-a-seeded-template"
 			return true
 		}
 		for i, k := range n.Kids {
@@ -304,6 +339,23 @@ func closureOwner(root *Node, tok string) string {
 	}
 	walk(root, "top-level")
 	return found
+}
+
+// c13fits says whether the model's document for these specs stays within the work bound.
+func c13fits(specs []*Node, nOnce int) (ok bool) {
+	defer func() {
+		if r := recover(); r != nil {
+			if _, is := r.(tooBig); !is {
+				panic(r)
+			}
+			ok = false
+		}
+	}()
+	m := &c13model{seen: map[int]bool{}, nOnce: nOnce, work: 6000}
+	for _, s := range specs {
+		m.eval(s, nil)
+	}
+	return true
 }
 
 type c13ctx struct {
@@ -340,6 +392,11 @@ func c13World(rc *kernel.RunCtx) {
 		if faultsLeft > 0 && t.Chance(1, 4, "faulty-context") {
 			faultsLeft--
 			c.fault = Fault{Kind: "zero", At: t.Choose(300, "fat")}
+		}
+		if !c13fits(c.specs, nOnce) {
+			// loops and repeated slots multiply: the document would be huge (not endless)
+			k.Count("specs_replaced_because_the_document_would_be_huge", 1)
+			c.specs = []*Node{{K: "seq", Kids: []*Node{{K: "block", S: g.id("B")}}}}
 		}
 		ctxs = append(ctxs, c)
 	}
@@ -396,7 +453,7 @@ func c13World(rc *kernel.RunCtx) {
 			rc.Fail("C13/render-error", "%s: %v (specs %v)", c.name, c.err, c.specs)
 			continue
 		}
-		m := &c13model{seen: map[int]bool{}}
+		m := &c13model{seen: map[int]bool{}, nOnce: nOnce, work: 1 << 30}
 		var want []string
 		for _, s := range c.specs {
 			want = append(want, m.eval(s, nil)...)
